@@ -1,4 +1,5 @@
 import NanoVerif.Model.Isa
+import NanoVerif.Model.Nvm
 namespace NanoVerif.Driver
 
 def natList (ws : List String) : Option (List Nat) := ws.mapM String.toNat?
@@ -29,11 +30,82 @@ def isaInfo (ws : List String) : String :=
     | some info => s!"{info.name} {info.operands.length} " ++ joinNat (info.operands.map Gen.operandSize)
   | _ => "bad-op"
 
+def hexOr (bs : Bytes) : String := if bs.isEmpty then "-" else toHex bs
+
+def moduleText (m : Module) : String :=
+  s!"f={m.flags};e={m.entryPoint};s=" ++ ",".intercalate (m.strings.map hexOr)
+  ++ ";c=" ++ hexOr m.code
+  ++ ";fn=" ++ ",".intercalate (m.functions.map fun f =>
+      s!"{f.nameIdx}.{f.arity}.{f.codeOffset}.{f.codeLength}.{f.localCount}.{f.upvalueCount}")
+  ++ ";d=" ++ ",".intercalate (m.debug.map fun d => s!"{d.bytecodeOffset}.{d.sourceLine}")
+  ++ ";i=" ++ ",".intercalate (m.imports.map fun i =>
+      s!"{i.moduleNameIdx}.{i.functionNameIdx}.{i.paramCount}.{i.returnType}." ++
+        (match i.paramTypes with | some pt => hexOr pt | none => "N"))
+
+def items (v : String) : List String := (v.splitOn ",").filter (· ≠ "")
+
+def parseField (m : Module) (fld : String) : Option Module :=
+  match fld.splitOn "=" with
+  | ["f", v] => v.toNat?.map fun n => { m with flags := n % 4294967296 }
+  | ["e", v] => v.toNat?.map fun n => { m with entryPoint := n % 4294967296 }
+  | ["c", v] => (ofHex (if v.isEmpty then "-" else v)).map fun b => { m with code := m.code ++ b }
+  | ["s", v] => (items v).foldlM (fun m it => (ofHex it).map fun b => { m with strings := (addString m.strings b).1 }) m
+  | ["fn", v] => (items v).foldlM (fun m it =>
+      match (it.splitOn ".").mapM String.toNat? with
+      | some [a, b, c, d, e, f] => some { m with functions := m.functions ++
+          [{ nameIdx := a % 4294967296, arity := b % 65536, codeOffset := c % 4294967296,
+             codeLength := d % 4294967296, localCount := e % 65536, upvalueCount := f % 65536 }] }
+      | _ => none) m
+  | ["d", v] => (items v).foldlM (fun m it =>
+      match (it.splitOn ".").mapM String.toNat? with
+      | some [a, b] => some { m with debug := m.debug ++ [{ bytecodeOffset := a, sourceLine := b }] }
+      | _ => none) m
+  | ["i", v] => (items v).foldlM (fun m it =>
+      match it.splitOn "." with
+      | [a, b, c, d, pt] =>
+        match a.toNat?, b.toNat?, c.toNat?, d.toNat? with
+        | some a, some b, some c, some d =>
+          if pt = "N" then some { m with imports := m.imports ++
+            [{ moduleNameIdx := a, functionNameIdx := b, paramCount := c % 65536, returnType := d % 256, paramTypes := none }] }
+          else (ofHex pt).bind fun p =>
+            -- nvm_add_import: a table is stored only when param_count > 0
+            some { m with imports := m.imports ++
+              [{ moduleNameIdx := a, functionNameIdx := b, paramCount := c % 65536, returnType := d % 256,
+                 paramTypes := if c % 65536 > 0 then some p else none }] }
+        | _, _, _, _ => none
+      | _ => none) m
+  | _ => none
+
+def parseModule (txt : String) : Option Module :=
+  (txt.splitOn ";").foldlM parseField {}
+
+def nvmLoad (hex : String) : String :=
+  match ofHex hex with
+  | none => "bad-op"
+  | some bs =>
+    match deserialize bs with
+    | .error .reject => "err"
+    | .error .oob => "oob"
+    | .ok m => "ok " ++ moduleText m
+
+def nvmSer (txt : String) : String :=
+  match parseModule txt with
+  | none => "bad-op"
+  | some m => "ok " ++ hexOr (serialize m)
+
+def crcCmd (hex : String) : String :=
+  match ofHex hex with
+  | none => "bad-op"
+  | some bs => toString (crc32 bs).toNat
+
 def handle (line : String) : String :=
   match line.splitOn " " with
   | "isa.dec" :: [hex] => isaDec hex
   | "isa.enc" :: ws => isaEnc ws
   | "isa.info" :: ws => isaInfo ws
+  | "crc" :: [hex] => crcCmd hex
+  | "nvm.load" :: [hex] => nvmLoad hex
+  | "nvm.ser" :: [txt] => nvmSer txt
   | _ => "bad-op"
 
 end NanoVerif.Driver
